@@ -89,6 +89,7 @@ class ZEval:
         self.params = {}
         self.naux = 0
         self.uf_used = False
+        self.pole_guard = False     # a definedness condition excluding a pole inside / at the end of an interval of integration was added
 
     def param(self, name):
         if name not in self.params:
@@ -160,6 +161,28 @@ class ZEval:
                 x = self.val(e.args[0], env)
                 return z3.If(x >= 0, x, -x)
             return self.transcendental(e, env)
+        if e.is_integral() and (e.lower.is_inf() or e.upper.is_inf()):
+            # improper integral of a generalised polynomial: every monomial must decay (integer exponent < -1), its primitive
+            # vanishes at infinity
+            env2 = {k: v for k, v in env.items() if k != e.var}
+            cs = self.coeffs(e.body, e.var, env2)
+            lo = None if e.lower.is_inf() else self.val(e.lower, env)
+            hi = None if e.upper.is_inf() else self.val(e.upper, env)
+            if lo is None and hi is None:
+                raise Unsup('integral over the whole line')
+            tot = z3.RealVal(0)
+            for q, c in cs.items():
+                if q.denominator != 1 or q >= -1:
+                    raise Unsup('divergent or fractional improper integral')
+                q1 = q + 1
+                self.pole_guard = True
+                if lo is None:
+                    self.defd.append(hi < 0)
+                    tot = tot + c * self.rpow(hi, q1) / z3.RealVal(q1)
+                else:
+                    self.defd.append(lo > 0)
+                    tot = tot - c * self.rpow(lo, q1) / z3.RealVal(q1)
+            return tot
         if e.is_integral():
             lo, hi = self.val(e.lower, env), self.val(e.upper, env)
             env2 = {k: v for k, v in env.items() if k != e.var}
@@ -174,6 +197,7 @@ class ZEval:
                         raise Unsup('negative fractional exponent in integrand')
                 elif q < 0:
                     self.defd.append(lo * hi > 0)
+                    self.pole_guard = True
                 q1 = q + 1
                 tot = tot + c * (self.rpow(hi, q1) - self.rpow(lo, q1)) / z3.RealVal(q1)
             return tot
@@ -330,9 +354,30 @@ def compare(before, after, conds, extra=None, timeout=6000):
     s.set('timeout', timeout)
     for g in ev.side + ev.defd + cs:
         s.add(g)
-    s.add(v1 != v2)
+    s.add(v1 != v2)           # (no push/pop: an incremental z3 solver is much weaker on nonlinear real arithmetic)
     r = str(s.check())
     if r == 'unsat':
+        # guard against vacuity (only where a pole condition was assumed): are the two sides defined together anywhere at all?
+        sv = z3.Solver()
+        sv.set('timeout', 2000)
+        for g in ev.side + ev.defd + cs:
+            sv.add(g)
+        if ev.pole_guard and str(sv.check()) == 'unsat':
+            s0 = z3.Solver()
+            s0.set('timeout', timeout)
+            for g in ev.side + ev.defd[:n1] + cs:
+                s0.add(g)
+            if str(s0.check()) == 'sat':
+                m0 = s0.model()
+                vals0 = {}
+                for n, p in ev.params.items():
+                    v = m0.eval(p, model_completion=True)
+                    try:
+                        vals0[n] = str(Fraction(v.numerator_as_long(), v.denominator_as_long()))
+                    except Exception:
+                        pass
+                return 'after-undefined', vals0        # the input has a value, the result has none anywhere
+            return 'outside', 'nowhere defined'
         return 'equal', None
     if r == 'sat':
         m = s.model()
@@ -369,6 +414,8 @@ def feval(e, env):
         return float(Fraction(e.val))
     if e.is_var():
         return env[e.name]
+    if e.is_inf():
+        return float('inf') if e == _S['expr'].POS_INF else float('-inf')
     if e.is_op():
         if len(e.args) == 1:
             return -feval(e.args[0], env)
@@ -391,7 +438,8 @@ def feval(e, env):
                 'sinh': math.sinh, 'cosh': math.cosh, 'tanh': math.tanh, 'acot': lambda t: math.pi / 2 - math.atan(t)}[e.func_name](*a)
     if e.is_integral():
         lo, hi = feval(e.lower, env), feval(e.upper, env)
-        return float(mpmath.quad(lambda t: feval(e.body, dict(env, **{e.var: float(t)})), [lo, hi]))
+        pts = [lo, 0.0, hi] if lo < 0 < hi else [lo, hi]          # a pole of the integrand, if any, is at 0 in the generated families
+        return float(mpmath.quad(lambda t: feval(e.body, dict(env, **{e.var: float(t)})), pts))
     if e.is_evalat():
         return feval(e.body, dict(env, **{e.var: feval(e.upper, env)})) - feval(e.body, dict(env, **{e.var: feval(e.lower, env)}))
     raise Unsup('feval ' + type(e).__name__)
@@ -419,9 +467,9 @@ def numeric_differs(before, after, vals):
 
 INTEGRANDS = ['x', 'x^2', 'a*x + 1', '(x+1)^2', 'x*(x+a)', '(x+1)*(x-1)', 'x^3 - a*x', '(a*x+b)^2', '2*x*(x^2+1)', '(2*x+1)^3', 'x^2/a', '3', 'x/2 - x^2/3', '(x-a)^3',
               'x*(1-x)^2', 'sqrt(x)', 'x*sqrt(x)', '1/x^2', 'sqrt(a)*x', 'x^2 + abs(a - b)']
-BOUNDS = [('0', '1'), ('-1', '2'), ('a', 'b'), ('1', '3'), ('-2', '-1'), ('0', 'a'), ('-a', 'a'), ('1', 'a+1')]
+BOUNDS = [('0', '1'), ('-1', '2'), ('a', 'b'), ('1', '3'), ('-2', '-1'), ('0', 'a'), ('-a', 'a'), ('1', 'a+1'), ('-2', '0')]
 SUBSTS = ['2*x+1', 'x+a', '-x', '3-x', 'x^2', 'x^2+1', 'a*x', 'x/2', '1-2*x', 'x^3', '(x-1)^2', 'sqrt(x)', 'x-b', '1/x']
-INV_SUBSTS = ['u+1', '2*u', '-u', 'u^2', 'a*u', '1-u', 'u/2+1', 'u^3', 'sqrt(u)']
+INV_SUBSTS = ['u+1', '2*u', '-u', 'u^2', 'a*u', '1-u', 'u/2+1', 'u^3', 'sqrt(u)', '1/u', '1/(u-3)']
 PARTS = [('x', 'x^2/2', 'x'), ('x^2', 'x', '1'), ('x+a', 'x^3/3', 'x^2'), ('a*x', '(x+1)^2/2', 'x+1'), ('x', 'x', '1'), ('(x-1)^2', 'x^2', '2*x'), ('sqrt(x)', 'x', '1')]
 SPLITS = ['0', '1/2', 'a', '5', '(a+b)/2', '-1', 'b']
 REWRITES = [('(x+1)^2', 'x^2+2*x+1'), ('(x+1)^2', 'x^2+1'), ('x*(x+a)', 'x^2+a*x'), ('x*(x+a)', 'x^2+a'), ('(x+1)*(x-1)', 'x^2-1'), ('x^2/a', 'x^2*a'), ('x^2/a', '(1/a)*x^2'),
@@ -507,6 +555,30 @@ def judge_step(label, before, after, out, rec, extra_conds=None, definedness=Fal
                                        detail='%s on %s returns %s, which has no real value at %s although the input evaluates to %.9g there' % (label, before, after, vals, x)))
     elif st == 'unknown':
         out['inconclusive'] += 1
+        out['stats']['unknown:' + label.split('(')[0].split('[')[0]] = out['stats'].get('unknown:' + label.split('(')[0].split('[')[0], 0) + 1
+    elif st == 'after-undefined':
+        # the result is defined nowhere (under the conditions) although the input is: confirmed numerically before it is reported
+        out['keys'].add('%s|%s' % (label, before))
+        env = {k: float(Fraction(v)) for k, v in info.items()}
+        try:
+            x = feval(before, env)
+            okb = x == x and abs(x) != float('inf')
+        except Exception:
+            okb = False
+        bad_after = False
+        try:
+            import mpmath
+            y = feval(after, env)
+            bad_after = not (y == y) or abs(y) > 1e12
+        except (ValueError, ZeroDivisionError, OverflowError):
+            bad_after = True
+        except Exception:
+            bad_after = False
+        if okb and bad_after:
+            out['cex'].append(dict(rec, kind='step-result-undefined:' + label.split('(')[0], sig='%s|%s' % (label, before), before=str(before), after=str(after),
+                                   detail='%s on %s returns %s, which has no (finite real) value for any parameter values although the input evaluates to %.9g at %s' % (label, before, after, x, info)))
+        else:
+            out['inconclusive'] += 1
     elif st == 'differ':
         out['keys'].add('%s|%s' % (label, before))
         ok, why = numeric_differs(before, after, info)
@@ -670,7 +742,7 @@ def run_rules(u, out):
 def gen_expr(rnd, depth, trans=False):
     E = _S['expr']
     x, a = E.Var('x'), E.Var('a')
-    leaves = [x, x, a, E.Const(0), E.Const(1), E.Const(2), E.Const(Fraction(1, 2)), E.Const(-1), E.Const(3)]
+    leaves = [x, x, a, E.Const(0), E.Const(1), E.Const(2), E.Const(Fraction(1, 2)), E.Const(-1), E.Const(3), E.Const(Fraction(-1, 2)), E.Const(Fraction(-3, 2)), E.Const(-2)]
 
     def g(d):
         if d == 0 or rnd.random() < 0.25:
